@@ -396,3 +396,152 @@ Proof.
     split; [|exact Hq]. rewrite Hn. apply shape_name_prefixize. apply Hok; exact Hce.
   - unfold zcfg_of in Ht'. rewrite Ht'. eauto.
 Qed.
+
+(** ** E. C12 at run level: the class sizes are in the range of the binary64
+    laws as soon as the graph has fewer than 2^53 triples *)
+
+(** total number of class listings of an instance dictionary *)
+Definition listings (d : insts) : nat := List.length (List.concat (map snd d)).
+
+Lemma listings_cons k v (d : insts) : listings ((k, v) :: d) = (List.length v + listings d)%nat.
+Proof. unfold listings. cbn [map snd List.concat]. apply app_length. Qed.
+
+Lemma listings_dset (d : insts) k v :
+  (listings (dset d k v) + match dget d k with Some v0 => List.length v0 | None => 0 end =
+   listings d + List.length v)%nat.
+Proof.
+  induction d as [|[k' v'] d IH]; cbn [dset dget].
+  - rewrite listings_cons. unfold listings; cbn. lia.
+  - destruct (str_eqb k k'); rewrite !listings_cons; lia.
+Qed.
+
+Lemma listings_annot (d : insts) k x : listings (dupd d k [] (fun cs => cs ++ [x])) = S (listings d).
+Proof.
+  unfold dupd. pose proof (listings_dset d k) as H. destruct (dget d k) as [v0|].
+  - specialize (H (v0 ++ [x])). rewrite app_length in H. cbn in H. lia.
+  - specialize (H ([] ++ [x])). cbn in H. cbn. lia.
+Qed.
+
+Lemma track_plain_listings tau m g : forall d d',
+  track_plain tau m g d = inl d' -> (listings d' <= listings d + List.length g)%nat.
+Proof.
+  induction g as [|t g IH]; intros d d' H; cbn [track_plain] in H.
+  - injection H as <-. lia.
+  - cbn [List.length]. destruct (relevant tau m t).
+    + unfold annotate in H. destruct (to t) as [o|? ?]; [|discriminate].
+      apply IH in H. rewrite listings_annot in H. lia.
+    + apply IH in H. lia.
+Qed.
+
+Lemma track_cap_listings tau m cap nt g : forall d st d',
+  track_cap tau m cap nt g d st = inl d' -> (listings d' <= listings d + List.length g)%nat.
+Proof.
+  induction g as [|t g IH]; intros d st d' H; cbn [track_cap] in H.
+  - injection H as <-. lia.
+  - cbn [List.length]. destruct (cap_allows tau cap st t) as [[|]|]; [| |discriminate].
+    + destruct (relevant tau m t).
+      * destruct (to t) as [o|? ?]; [|discriminate].
+        destruct nt as [n|].
+        -- match type of H with (if ?b then _ else _) = _ => destruct b end.
+           ++ injection H as <-. rewrite listings_annot. lia.
+           ++ apply IH in H. rewrite listings_annot in H. lia.
+        -- apply IH in H. rewrite listings_annot in H. lia.
+      * apply IH in H. lia.
+    + apply IH in H. lia.
+Qed.
+
+Lemma track_listings tau m cap g ins :
+  track tau m cap g = inl ins -> (listings ins <= List.length g)%nat.
+Proof.
+  unfold track. destruct (cap <=? 0)%Z; intros H.
+  - apply track_plain_listings in H. exact H.
+  - apply track_cap_listings in H. exact H.
+Qed.
+
+Lemma count_str_le_length k l : (count_str k l <= N.of_nat (List.length l))%N.
+Proof.
+  induction l as [|x l IH]; cbn [count_str List.length]; [lia|].
+  destruct (str_eqb k x); lia.
+Qed.
+
+Lemma class_count_le_graph tau m cap g ins c :
+  track tau m cap g = inl ins -> (class_count ins c <= N.of_nat (List.length g))%N.
+Proof.
+  intros H. apply track_listings in H. rewrite class_count_concat.
+  pose proof (count_str_le_length c (List.concat (map snd ins))) as H1. unfold listings in H. lia.
+Qed.
+
+(** what the profile holds for the classes that have an entry *)
+Lemma front_entry_count c g ns P C :
+  front c g = inl (P, C) ->
+  forall ce inv p k ck n, In ce P -> pd_entry (class_pd (scfg_of c ns) ce inv) p k ck n ->
+  (0 < cnt_of C (fst ce) <= N.of_nat (List.length g))%N /\ (n <= cnt_of C (fst ce))%N.
+Proof.
+  intros Hf ce inv p k ck n Hce He.
+  destruct (front_inl c g P C Hf) as (ins & ID & Ht & Hp).
+  destruct (track_insts_ok _ _ _ _ _ Ht) as [ND _].
+  destruct (profile_final_char (pcfg_of c) ins g P C ID ND Hp)
+    as (_ & _ & (ks & Hks & _) & _ & HC & Hent).
+  destruct ce as [cl e]. destruct (Hent cl e Hce) as (Hget & Hdir & Hinv & _). cbn [fst] in *.
+  assert (Hcl : In cl (class_keys (targets_of (pcfg_of c)) ins)).
+  { assert (In cl (dkeys P)) as H by (apply in_map_iff; exists (cl, e); auto).
+    rewrite Hks in H. apply filter_In in H. apply H. }
+  unfold cnt_of. rewrite (HC cl Hcl).
+  assert (Hn : exists dir, n = occ dir (r_tau c) ins g cl p k ck /\ (0 < n)%N).
+  { destruct He as (kd & cd & H1 & H2 & H3). unfold class_pd in H1. cbn [x_inverse scfg_of snd] in H1.
+    destruct inv.
+    - destruct (r_inverse c) eqn:Ei; [|destruct H1].
+      exists Inverse. exact (Hinv Ei p kd k cd ck n H1 H2 H3).
+    - exists Direct. exact (Hdir p kd k cd ck n H1 H2 H3). }
+  destruct Hn as [dir [En Hpos]].
+  pose proof (occ_le_class_count dir (r_tau c) ins g cl p k ck) as Hle. rewrite <- En in Hle.
+  pose proof (class_count_le_graph _ _ _ _ _ cl Ht) as Hg. lia.
+Qed.
+
+Lemma front_counts_ok c g ns P C :
+  front c g = inl (P, C) -> (N.of_nat (List.length g) < 2 ^ 53)%N ->
+  counts_ok (scfg_of c ns) okN53 P C.
+Proof.
+  intros Hf Hg ce inv p k ck n Hce He.
+  destruct (front_entry_count c g ns P C Hf ce inv p k ck n Hce He) as [H _]. unfold okN53. lia.
+Qed.
+
+Definition keys_shrink (cfg : scfg) (sh1 sh2 : shape) : Prop :=
+  sh_name sh1 = sh_name sh2 /\ sh_class sh1 = sh_class sh2 /\ sh_n sh1 = sh_n sh2 /\
+  incl (map (skey cfg) (sh_stmts sh2)) (map (skey cfg) (sh_stmts sh1)).
+
+Theorem run_keys_monotone c thr1 thr2 g ns1 s1 ns2 s2 :
+  r_remove_empty c = false -> wf_frac thr1 -> wf_frac thr2 -> fle BAlg thr1 thr2 = true ->
+  (N.of_nat (List.length g) < 2 ^ 53)%N ->
+  run_shapes BAlg c thr1 g = inl (ns1, s1) -> run_shapes BAlg c thr2 g = inl (ns2, s2) ->
+  ns1 = ns2 /\ Forall2 (keys_shrink (scfg_of c ns1)) s1 s2.
+Proof.
+  intros Hre W1 W2 Hle Hg R1 R2. rewrite run_shapes_front in R1, R2.
+  destruct (full_ns c) as [ns|]; [|discriminate].
+  destruct (front c g) as [[P C]|e] eqn:Hf; [|discriminate].
+  destruct (shex BAlg (scfg_of c ns) thr1 P C) as [l1|e1] eqn:E1; [|discriminate].
+  destruct (shex BAlg (scfg_of c ns) thr2 P C) as [l2|e2] eqn:E2; [|discriminate].
+  injection R1 as <- <-. injection R2 as <- <-. split; [reflexivity|].
+  exact (K2_keep BAlg (scfg_of c ns) wf_frac okN53
+           (fun n d H => ratio_wf _ _ _ BAlg_laws n d H) (fle_trans _ _ _ BAlg_laws)
+           thr1 thr2 P C l1 l2 Hre W1 W2 (front_counts_ok c g ns P C Hf Hg) Hle E1 E2).
+Qed.
+
+(** the same for the exact algebra (no bound on the graph) *)
+Theorem run_keys_monotone_exact c thr1 thr2 g ns1 s1 ns2 s2 :
+  r_remove_empty c = false -> wf_frac thr1 -> wf_frac thr2 -> fle QAlg thr1 thr2 = true ->
+  run_shapes QAlg c thr1 g = inl (ns1, s1) -> run_shapes QAlg c thr2 g = inl (ns2, s2) ->
+  ns1 = ns2 /\ Forall2 (keys_shrink (scfg_of c ns1)) s1 s2.
+Proof.
+  intros Hre W1 W2 Hle R1 R2. rewrite run_shapes_front in R1, R2.
+  destruct (full_ns c) as [ns|]; [|discriminate].
+  destruct (front c g) as [[P C]|e] eqn:Hf; [|discriminate].
+  destruct (shex QAlg (scfg_of c ns) thr1 P C) as [l1|e1] eqn:E1; [|discriminate].
+  destruct (shex QAlg (scfg_of c ns) thr2 P C) as [l2|e2] eqn:E2; [|discriminate].
+  injection R1 as <- <-. injection R2 as <- <-. split; [reflexivity|].
+  refine (K2_keep QAlg (scfg_of c ns) wf_frac (fun d => 0 < d)%N
+           (fun n d H => ratio_wf _ _ _ QAlg_laws n d H) (fle_trans _ _ _ QAlg_laws)
+           thr1 thr2 P C l1 l2 Hre W1 W2 _ Hle E1 E2).
+  intros ce inv p k ck n Hce He.
+  destruct (front_entry_count c g ns P C Hf ce inv p k ck n Hce He) as [H _]. lia.
+Qed.
